@@ -31,7 +31,7 @@ ASSUMPTIONS = [
     "judged",
 ]
 NONTRIVIAL = ["dims", "ood", "negotiated"]
-DEADLINE = {"quick": 60, "thorough": 900}
+DEADLINE = {"quick": 90, "thorough": 900}
 
 
 def snapshot(hs):
